@@ -18,7 +18,7 @@ ASSUMPTIONS = [
     "Unicode text = sequences of scalar values (no lone surrogates)",
     "a watchdog firing (30 s per tree) is reported as inconclusive, never as a violation",
 ]
-REQUIRED = ["trees_validated_again_after_in_place_edits", "first_use_probes", "repeatability_checks", "trees_valid", "trees_invalid", "tree_calls", "node_calls", "config_fault_cases", "depth_ge_50", "fanout_ge_30"]
+REQUIRED = ["typed_table_values", "trees_validated_again_after_in_place_edits", "first_use_probes", "repeatability_checks", "trees_valid", "trees_invalid", "tree_calls", "node_calls", "config_fault_cases", "depth_ge_50", "fanout_ge_30"]
 EXHAUSTIVE = {"quick": False, "thorough": False}
 
 
@@ -185,6 +185,25 @@ def config_fault(ctx):
         del mapping[ename]
 
 
+def typed_table_sweep(ctx):
+    """Every entry of the lexical class tables (numbers at and beyond the bounds, NaN and infinities in every spelling, times, dates,
+    URIs with every component) on a node of every rule that declares a typed content constraint, in both modes: whatever the verdict
+    (C02 judges that), the validator has to come back with it."""
+    from vlib.models import content as C
+    for rule_name in emlkit.rule_names():
+        kinds = list(emlkit.rules_table()[rule_name][2].get("content_rules", []))
+        elements = emlkit.elements_of(rule_name)
+        if not elements or not any(k.startswith("float") or k in ("intContent", "timeContent", "yearDateContent", "uriContent") for k in kinds):
+            continue
+        for v in C.inputs_for(kinds, ctx.rng, 0):
+            n = emlkit.make_node(rule_name, elements[0], emlkit.shortest_valid_sequence(rule_name) or [], content=v)
+            call_both(ctx, mvalidate.node, f"validate.node(<{n.name}> with content {v!r:.40})", n,
+                      lambda n=n: {"tree": snapshot.to_plain(n), "origin": "typed table sweep", "node_only": True})
+            ctx.evaluated(2)
+            ctx.count("typed_table_values")
+            emlkit.discard(n)
+
+
 def first_use_probes(ctx):
     """At the very start of the process, per rule: a node that is invalid in three ways (missing required attributes, wrong
     content, a disallowed child) is validated three times in each mode, alternating; every repetition must give the same verdict
@@ -229,6 +248,7 @@ def run(ctx, params):
     probing = pr.start()
     try:
         config_fault(ctx)
+        typed_table_sweep(ctx)
         rng = ctx.rng
         for label, t in anytrees.allowed_unknown_cases(gen):
             ff, errs = judge_tree(ctx, t, "allowed-but-unknown child " + label)
